@@ -456,14 +456,37 @@ def escape_programs():
         yield ("escape:%s:%s:%s" % (dn, fn, sn), cls + "function main() -> void { qubit pad; %s %s %s %s }\n" % (dsrc, fsrc, ssrc, probes), len(handles))
 
 
+LEAK_CLS = ("class Lk { public qubit q; public constructor() -> Lk = default; public function out() -> qubit { return this.q; } }\n"
+            "class Lr { public qubit[2] r; public constructor() -> Lr = default; }\n"
+            "static class G { public static Lr o; public static Lk so; }\n"
+            "function mk() -> qubit { Lk t = new Lk(); return t.out(); }\n"
+            "function idq(qubit p) -> qubit { return p; }\n"
+            "function gz() -> int { return 0; }\n"
+            "function dropo() -> int { G.o = null; return 0; }\n"
+            "class Hd { public Lk a; public constructor() -> Hd { this.a = new Lk(); } public destructor() -> void { int z = gz(); this.a = null; } }\n"
+            "function viad() -> qubit { if (true) { Hd b = new Hd(); return b.a.q; } qubit u; return u; }\n")
+LEAKS = {"method-of-local": "qubit s = mk();", "temp-field": "qubit s = new Lk().q;", "temp-method": "qubit s = new Lk().out();",
+         "temp-through-function": "qubit s = idq(new Lk().q);", "return-while-destructor-calls": "qubit s = viad();",
+         "owner-dropped-by-index": "G.o = new Lr(); qubit s = G.o.r[dropo()];", "temp-then-assigned": "qubit s; s = new Lk().q;"}
+LEAK_FRESH = {"object": ("Lk d = new Lk();", ["d.q"]), "scalar": ("qubit d;", ["d"]), "register": ("qubit[2] d;", ["d[0]", "d[1]"])}
+
+
 def leaked_handle_programs():
-    """a qubit HANDLE that outlives the object owning the qubit (returned by a method of a local object): the index is released when the
-    owner dies, the handle still names it"""
-    cls = "class Lk { public qubit q; public constructor() -> Lk = default; public function out() -> qubit { return this.q; } }\nfunction mk() -> qubit { Lk t = new Lk(); return t.out(); }\n"
-    fresh = {"object": ("Lk d = new Lk();", ["d.q"]), "scalar": ("qubit d;", ["d"]), "register": ("qubit[2] d;", ["d[0]", "d[1]"])}
+    """a qubit HANDLE that outlives the object owning the qubit: the index is released when the owner dies, the handle still names it.
+    Leak ways: returned by a method of a local object; read out of a temporary ('new Lk().q', 'new Lk().out()', passed through a
+    function); returned from inside a block while the holder's destructor calls a function; an element of a register whose owner is
+    dropped by the index expression; a field of the object whose destructor is running (hunts C03, C06 d1-d3)."""
+    cls, leaks, fresh = LEAK_CLS, LEAKS, LEAK_FRESH
+    for ln, lsrc in leaks.items():
+        for fn, (fsrc, handles) in fresh.items():
+            probes = " ".join("echo(measure %s);" % hnd for hnd in handles)
+            yield ("escape:leak-%s:%s:x-via-leaked-handle" % (ln, fn), cls + "function main() -> void { qubit pad; %s %s x(s); %s }\n" % (lsrc, fsrc, probes), len(handles))
+    # the handle is a field of the object whose destructor is running; the owner dies inside that destructor
     for fn, (fsrc, handles) in fresh.items():
         probes = " ".join("echo(measure %s);" % hnd for hnd in handles)
-        yield ("escape:leak:%s:x-via-leaked-handle" % fn, cls + "function main() -> void { qubit pad; qubit s = mk(); %s x(s); %s }\n" % (fsrc, probes), len(handles))
+        yield ("escape:leak-dying-this:%s:x-via-leaked-handle" % fn,
+               cls + "class Dk { public qubit k; public constructor(qubit k) -> Dk { this.k = k; } public destructor() -> void { G.so = null; %s x(this.k); %s } }\n"
+               "function main() -> void { qubit pad; G.so = new Lk(); Dk b = new Dk(G.so.q); destroy b; }\n" % (fsrc, probes), len(handles))
 
 
 def _escape_one(item):
